@@ -22,28 +22,22 @@ Definition set_new_index (s : staking) (id : Z) (v : validator) : staking :=
 Definition del_index (s : staking) (id : Z) (v : validator) : staking :=
   st_pidx s (pidx_del (v_power v, id) (pidx s)).
 
-(* ---- unbonding validator queue, kept in key order (time, then height) ---- *)
+(* ---- unbonding validator queue: a store keyed by (completion time, height), iterated in key order ---- *)
 Definition slot_le (a b : Z * Z * list Z) : bool :=
   let '(ta, ha, _) := a in let '(tb, hb, _) := b in (ta <? tb) || ((ta =? tb) && (ha <=? hb)).
 
-Fixpoint ubq_insert (t h id : Z) (q : list (Z * Z * list Z)) : list (Z * Z * list Z) :=
-  match q with
-  | [] => [(t, h, [id])]
-  | (t', h', ids) :: rest =>
-      if (t =? t') && (h =? h') then (t', h', ids ++ [id]) :: rest
-      else if slot_le (t, h, []) (t', h', ids) then (t, h, [id]) :: q
-      else (t', h', ids) :: ubq_insert t h id rest
+(* InsertUnbondingValidatorQueue: append to the slot's list *)
+Definition ubq_insert (t h id : Z) (q : gmap (Z * Z) (list Z)) : gmap (Z * Z) (list Z) :=
+  <[(t, h) := default [] (q !! (t, h)) ++ [id]]> q.
+
+(* DeleteValidatorQueue: drop the address from the slot; drop the slot when it becomes empty *)
+Definition ubq_delete (t h id : Z) (q : gmap (Z * Z) (list Z)) : gmap (Z * Z) (list Z) :=
+  match filter (fun x => negb (x =? id)) (default [] (q !! (t, h))) with
+  | [] => delete (t, h) q
+  | ids' => <[(t, h) := ids']> q
   end.
 
-Fixpoint ubq_delete (t h id : Z) (q : list (Z * Z * list Z)) : list (Z * Z * list Z) :=
-  match q with
-  | [] => []
-  | (t', h', ids) :: rest =>
-      if (t =? t') && (h =? h') then
-        let ids' := filter (fun x => negb (x =? id)) ids in
-        match ids' with [] => rest | _ => (t', h', ids') :: rest end
-      else (t', h', ids) :: ubq_delete t h id rest
-  end.
+Definition sorted_slots (q : gmap (Z * Z) (list Z)) : list (Z * Z * list Z) := sort_by slot_le (map_to_list q).
 
 (* ---- pools ---- *)
 Definition burn_bonded (b : bank) (amt : Z) : option bank :=
@@ -260,7 +254,7 @@ Fixpoint mature_slots (slots : list (Z * Z * list Z)) (c : chain) : option chain
     else mature_slots rest c
   end.
 
-Definition unbond_all_mature (c : chain) : option chain := mature_slots (ubq (stk c)) c.
+Definition unbond_all_mature (c : chain) : option chain := mature_slots (sorted_slots (ubq (stk c))) c.
 
 (* x/staking EndBlocker *)
 Definition staking_end_block (c : chain) : eb_res :=
